@@ -84,13 +84,18 @@ class Hello:
             return [struct.unpack(">H", d[1 + i:3 + i])[0] for i in range(0, n, 2)]
         return [struct.unpack(">H", d[:2])[0]] if len(d) >= 2 else []
 
+    @staticmethod
+    def _u16list(d):
+        if d is None: return None
+        if len(d) < 2: return []
+        n = (min(struct.unpack(">H", d[:2])[0], len(d) - 2) // 2) * 2          # tolerate a tampered length
+        return [struct.unpack(">H", d[2 + i:4 + i])[0] for i in range(0, n, 2)]
+
     def groups(self):
-        d = self.ext(EXT_GROUPS)
-        return None if d is None else [struct.unpack(">H", d[2 + i:4 + i])[0] for i in range(0, struct.unpack(">H", d[:2])[0], 2)]
+        return self._u16list(self.ext(EXT_GROUPS))
 
     def sigalgs(self):
-        d = self.ext(EXT_SIGALGS)
-        return None if d is None else [struct.unpack(">H", d[2 + i:4 + i])[0] for i in range(0, struct.unpack(">H", d[:2])[0], 2)]
+        return self._u16list(self.ext(EXT_SIGALGS))
 
     def key_share_groups(self):
         d = self.ext(EXT_KS)
